@@ -131,6 +131,10 @@ func otherValue(r *rng.Rand, n *spec.Node) any {
 		if r.Intn(6) == 0 {
 			return strings.Repeat(Word(r), r.Range(1, 4))
 		}
+		if r.Intn(40) == 0 {
+			// Go strings are byte strings: text that is not valid UTF-8 (latin-1 bytes, a truncated rune) is a value like any other
+			return []string{"caf\xe9", "\xffA\xfeB", "a\xe2\x82", "\xc3\x28ok"}[r.Intn(4)]
+		}
 		if r.Intn(30) == 0 {
 			// invisible but not white space: present, non-zero text (zero width space, byte order mark, word joiner, soft hyphen)
 			return []string{"\u200b", "\ufeff", "\u2060\u200b", "\u00ad", "\u200e \u200b"}[r.Intn(5)]
